@@ -20,6 +20,13 @@ Proof.
   - split; [apply dwf_dbuild | apply dbuild_final_nodup].
 Qed.
 
+(** Queries never change later answers: the model's automata are immutable values and every
+    query / conversion below is a pure function of them, so "inspect (Symbols, States, Accept,
+    ToDFA, Isomorphic ...) in the middle of the construction, keep adding, then convert" is
+    literally the same term as "build, then convert" — there is no state to state a theorem
+    about.  On the Go side this independence is checked by the interleaved-construction cases of
+    the harness (Q<mask> entries in a case header), which the driver skips for that reason. *)
+
 (** NFA.Accept (ε-closure worklist + move) terminates on every automaton and word and decides the
     path language: w is accepted iff some path labelled w (ε-moves interleaved) leads from the
     start state to a final state. *)
